@@ -56,9 +56,10 @@ class Exec(StmtMixin, CallMixin):
 
     def emit(self, st, kind, tag, goal, node=None, text=None):
         if isinstance(goal, bool):
-            if goal:
+            if goal and kind not in ("post", "raise", "noraise", "lemma", "after"):
                 return
-            goal = z3.BoolVal(False)
+            # contract clauses decided during VC generation (trace contracts, concrete data) are still recorded
+            goal = z3.BoolVal(goal)
         hyps = list(self.axioms) + list(st.pc) + [g for g in self.guard if not isinstance(g, bool)]
         if any(isinstance(g, bool) and not g for g in self.guard):
             return
@@ -488,4 +489,4 @@ def to_z(v):
 BUILTIN_NAMES = {"min", "max", "abs", "int", "float", "len", "range", "prange", "isnan", "isfinite", "isinf", "all", "any",
                  "implies", "eq", "old", "sum", "floor", "ceil", "bool", "list", "tuple", "enumerate", "zip", "round",
                  "literal_eval", "print", "isinstance", "str", "sorted", "map", "rint", "sqrt", "bit", "forall_cells",
-                 "shape_eq", "unchanged", "trunc", "dict", "type", "iff", "tok", "sum32", "Window"}
+                 "shape_eq", "unchanged", "trunc", "dict", "type", "iff", "tok", "sum32", "Window", "repr"}
